@@ -61,6 +61,8 @@ Spellings == ("a" :> {"a", "%61"}) @@ ("b" :> {"b", "%62"}) @@ ("c" :> {"c", "%6
           @@ ("u n" :> {"u+n", "u%20n"}) @@ ("u+n" :> {"u%2Bn", "u%2bn"}) @@ ("u%n" :> {"u%25n"})
           @@ ("u&n" :> {"u%26n"}) @@ ("u=n" :> {"u%3Dn"})
           @@ ("url" :> {"url", "%75rl"}) @@ ("url2" :> {"url2", "url%32"})
+          \* "keys" of segments the standard parser (url.ParseQuery) drops or errors on; see JunkPairs
+          @@ ("z;x" :> {"z;x"}) @@ ("z%" :> {"z%"}) @@ ("z%zz" :> {"z%zz"}) @@ ("" :> {""}) @@ ("(empty)" :> {""})
 PairStr(p) == p.sp \o (IF p.eq THEN "=" \o p.v ELSE "")
 QStr(q) == Join([i \in DOMAIN q |-> PairStr(q[i])], "&")
 Pair(k, sp, eq, v) == [k |-> k, sp |-> sp, eq |-> eq, v |-> v, dv |-> v]
@@ -69,32 +71,49 @@ Pairs == UNION {{Pair(k, sp, TRUE, v) : sp \in Spellings[k], v \in {"1", "a"}}  
                   \cup {Pair(k, sp, FALSE, "") : sp \in Spellings[k]} : k \in Keys}
 Queries == UNION {[1..n -> Pairs] : n \in 0..MaxPairs}
 
+\* Raw segments the standard parser drops or errors on: ';' inside, malformed percent escapes in
+\* the key or in the value, empty key ("=1"), lone "=", empty segment ("&&").  They are segments
+\* of the query sent to the backend all the same (a lenient backend parser reads them), so the
+\* actions are judged on them: "delete all except" leaves none of them, "delete a" leaves them
+\* alone - and removes "a=%zz", whose key is a.
+CONSTANT Junk
+JunkPairs == {Pair("z;x", "z;x", TRUE, "1"), Pair("z%", "z%", TRUE, "1"), Pair("z%zz", "z%zz", TRUE, "on"),
+              Pair("", "", TRUE, "1"), Pair("", "", TRUE, ""), Pair("(empty)", "", FALSE, ""),
+              Pair("a", "a", TRUE, "%zz")}
+PlainPairs == {Pair("a", "a", TRUE, "1"), Pair("a", "%61", TRUE, "1"), Pair("b", "b", TRUE, "1")}
+JunkQueries == IF ~Junk THEN {}
+               ELSE {q \in UNION {[1..n -> JunkPairs \cup PlainPairs] : n \in 1..3} : \E i \in DOMAIN q : q[i] \in JunkPairs}
+HasJunkKey(q, k) == \E i \in DOMAIN q : q[i] \in JunkPairs /\ q[i].k = k
+
 \* the decoded view a backend has of a query string: key -> ordered list of values
 Vals(q, k) == LET f == SelectSeq(q, LAMBDA p : p.k = k) IN [i \in DOMAIN f |-> f[i].dv]
 AllKeys == DOMAIN Spellings
-QMap(q) == [k \in AllKeys |-> Vals(q, k)]
+PKeys == AllKeys \ {"(empty)"}                     \* an empty segment ("&&") carries no parameter
+QMap(q) == [k \in PKeys |-> Vals(q, k)]
 HasKey(q, k) == \E i \in DOMAIN q : q[i].k = k
 
 \* ---- Layer P: documented postconditions over the decoded view
 QueryDelPost(q, ks, r) ==
     /\ \A k \in ks : ~HasKey(r, k)                        \* no deleted key remains, in any spelling
-    /\ \A k \in AllKeys \ ks : Vals(r, k) = Vals(q, k)    \* the others are unchanged
+    /\ \A k \in PKeys \ ks : Vals(r, k) = Vals(q, k)    \* the others are unchanged
 QueryDelAllExceptPost(q, ks, r) ==
-    /\ \A k \in AllKeys \ ks : ~HasKey(r, k)
+    /\ \A k \in PKeys \ ks : ~HasKey(r, k)   \* "all queries": unparseable segments too
     /\ \A k \in ks : Vals(r, k) = Vals(q, k)
 QueryAddPost(q, k, v, r) ==
     /\ Vals(r, k) = Append(Vals(q, k), v)
-    /\ \A x \in AllKeys \ {k} : Vals(r, x) = Vals(q, x)
+    /\ \A x \in PKeys \ {k} : Vals(r, x) = Vals(q, x)
 QueryRenamePost(q, o, n, r) ==                             \* n not present before (else gray)
     /\ ~HasKey(r, o)
     /\ Vals(r, n) = Vals(q, o)
-    /\ \A x \in AllKeys \ {o, n} : Vals(r, x) = Vals(q, x)
+    /\ \A x \in PKeys \ {o, n} : Vals(r, x) = Vals(q, x)
 
 \* ---- Layer M: what the code does (segment-wise edit of the raw query string)
 QueryDel(q, ks) == SelectSeq(q, LAMBDA p : p.k \notin ks)
-QueryDelAllExcept(q, ks) == SelectSeq(q, LAMBDA p : p.k \in ks)
-QueryAdd(q, k, v) == Append(q, Pair(k, k, TRUE, v))
-QueryRename(q, o, n) == [i \in DOMAIN q |->
+QueryDelAllExcept(q, ks) == SelectSeq(q, LAMBDA p : p.k \in ks \cup {"(empty)"})
+QueryAdd(q, k, v) == IF QStr(q) = "" THEN <<Pair(k, k, TRUE, v)>>       \* an empty raw query is replaced
+                     ELSE Append(q, Pair(k, k, TRUE, v))
+\* (the code renames only when the parsed query knows the key, i.e. some well-formed pair has it)
+QueryRename(q, o, n) == IF ~\E i \in DOMAIN q : q[i].k = o /\ q[i].v # "%zz" THEN q ELSE [i \in DOMAIN q |->
                            IF q[i].k = o THEN [q[i] EXCEPT !.k = n, !.sp = n] ELSE q[i]]
 
 \* spelling class of the pairs an action has to find (part of the failure signature)
@@ -253,8 +272,10 @@ QueryCase(kind, k, q) ==
       [] kind = "add-a" -> RW("QUERY_ADD", <<"a", "9">>, "add", All, r, H, P, QueryAdd(q, "a", "9"))
       [] kind = "add-n" -> RW("QUERY_ADD", <<"n", "9">>, "add", All, r, H, P, QueryAdd(q, "n", "9"))
       \* renaming onto a key that is already present is not described: gray
-      [] kind = "ren-n" -> RW("QUERY_RENAME", <<k, "n">>, FormClass(q, {k}), All, r, H, P, QueryRename(q, k, "n"))
-      [] kind = "ren-b" -> RW("QUERY_RENAME", <<k, "b">>, FormClass(q, {k}), IF HasKey(q, "b") THEN {} ELSE All,
+      \* ... and so is renaming a key that stands in a segment with a malformed value
+      [] kind = "ren-n" -> RW("QUERY_RENAME", <<k, "n">>, FormClass(q, {k}), IF HasJunkKey(q, k) THEN {} ELSE All,
+                              r, H, P, QueryRename(q, k, "n"))
+      [] kind = "ren-b" -> RW("QUERY_RENAME", <<k, "b">>, FormClass(q, {k}), IF HasKey(q, "b") \/ HasJunkKey(q, k) THEN {} ELSE All,
                               r, H, P, QueryRename(q, k, "b"))
 
 \* ---- headers
@@ -339,6 +360,8 @@ Init == \/ cur \in HostCases
         \/ cur \in PathCases
         \/ \E kind \in QueryKinds, k \in ParamKeys, q \in Queries :
               (kind \in {"add-a", "add-n"} => k = "a") /\ cur = QueryCase(kind, k, q)
+        \/ \E kind \in QueryKinds, q \in JunkQueries :
+              cur = [QueryCase(kind, "a", q) EXCEPT !.class = "junk:" \o @]
         \/ cur \in HeaderCases \cup VarAcceptCases \cup CookieCases
         \/ cur \in RedirectCases
 Next == UNCHANGED cur
